@@ -59,7 +59,7 @@ type wreport struct {
 }
 
 var c13Cfg = &verifref.UploadConfig{
-	GOOS: []string{"linux", "darwin", "windows"}, GOARCH: []string{"amd64", "arm64"}, GoVersion: []string{"go1.21.5", "go1.21.6", "go1.22.1", "go1.22.10", "go1.23rc1"}, SampleRate: 1,
+	GOOS: []string{"linux", "darwin", "windows"}, GOARCH: []string{"amd64", "arm64"}, GoVersion: []string{"go1.21.5", "go1.21.6", "go1.22.1", "go1.22.10", "go1.23rc1", "go1.9.2rc2", "go1.10beta2" /* (release candidates of patch releases exist: go1.9.2rc2) */}, SampleRate: 1,
 	Programs: []*verifref.ProgramConfig{
 		{Name: "golang.org/x/tools/gopls", Versions: []string{"v0.14.0", "v0.15.1-pre.1", "v1.2.3", "v1.2.30", "v1.2", "v1.2.0", "v1.2.3+meta"},
 			Counters: []verifref.CounterConfig{{Name: "editor/opens", Rate: 1}, {Name: "flag:{v,x,json}", Rate: 1}, {Name: "gopls/client:{vscode,vim,other}", Rate: 1}}},
